@@ -12,8 +12,8 @@ erste_n_spec erste_n_is_operator letzten_n_spec spiegeln_spec spiegeln_value_spe
 summe_spec summe_exact produkt_spec produkt_leer elementweise_summe_spec elementweise_differenz_spec elementweise_produkt_spec
 aufsteigende_spec absteigende_spec verketten_spec aneinandergehaengt_spec elw_verketten_spec
 tausche_spec quicksort_ref_spec quicksort_spec
-max_spec max3_spec min_spec min3_spec clamp_spec sign_spec ggt_spec kgv_spec ist_teilbar_spec gerade_spec fakultaet_spec
-teiler_spec teiler_sorted_desc trunc_spec floor_spec floor_integers ceil_spec ceil_integers hoechste_spec kleinste_spec
+max_spec max3_spec min_spec min3_spec clamp_spec sign_spec ggt_spec kgv_spec ist_teilbar_spec ist_teilbar_null gerade_spec fakultaet_spec
+teiler_spec teiler_sorted_desc primfaktorzerlegung_spec trunc_spec floor_spec floor_integers ceil_spec ceil_integers hoechste_spec kleinste_spec
 mindestens_spec hoechstens_spec zwischen_spec absolute_haeufigkeit_spec
 erster_buchstabe_spec letzter_buchstabe_spec nter_buchstabe_spec entferne_vorne_spec entferne_hinten_spec
 trim_anfang_spec trim_ende_spec trim_spec text_enthaelt_buchstabe_In text_anzahl_buchstabe_spec
@@ -22,9 +22,9 @@ beginnt_mit_buchstabe_spec endet_mit_buchstabe_spec beginnt_mit_text_spec prefix
 text_an_text_spec buchstabe_an_text_spec text_vor_text_spec buchstabe_vor_text_spec text_leeren_spec
 text_einfuegen_spec buchstabe_einfuegen_spec loesche_text_spec loesche_text_bereich_spec
 fuelle_text_spec buchstaben_liste_spec buchstaben_textliste_spec text_index_von_buchstabe_spec
-text_index_von_text_bounded text_index_von_text_leer ist_text_leer_spec grossschreiben_text_spec kleinschreiben_text_spec
-polster_links_spec polster_rechts_spec spalte_spec spalte_leer spalte_text_bounded spalte_text_einzeln finde_subtext_bounded
-verbinden_text_spec verbinden_buchstabe_spec hamming_spec hamming_ungleich vergleiche_spec spaltmenge_bounded
+text_index_von_text_spec text_index_von_text_leer ist_text_leer_spec grossschreiben_text_spec kleinschreiben_text_spec
+polster_links_spec polster_rechts_spec spalte_spec spalte_leer spalte_text_spec spalte_text_einzeln finde_subtext_spec
+verbinden_text_spec verbinden_buchstabe_spec verbinden_zahl_spec zahl_als_text_wert levenshtein_spec levenshtein_lev text_zu_byteliste_spec byteliste_roundtrip hamming_spec hamming_ungleich vergleiche_spec spaltmenge_spec spaltmenge_text_spec text_worte_spec
 """.split()
 
 # non-vacuity: the theorem applied to concrete arguments with every hypothesis discharged
@@ -38,7 +38,7 @@ NV = {
     'elementweise_summe_spec': '[1] [2] ltac:(nv)', 'elementweise_differenz_spec': '[1] [2] ltac:(nv)', 'elementweise_produkt_spec': '[1] [2] ltac:(nv)',
     'aufsteigende_spec': '1 3 ltac:(nv)', 'absteigende_spec': '3 1 ltac:(nv)', 'elw_verketten_spec': '[[1]] [[2]] ltac:(nv)',
     'clamp_spec': '5 3 1 ltac:(nv)', 'kgv_spec': '4 (-6) ltac:(nv) ltac:(unfold in_i64, two63; cbn; lia)',
-    'ist_teilbar_spec': '4 2 ltac:(nv)', 'fakultaet_spec': '5 ltac:(nv)', 'teiler_spec': '6 ltac:(nv)',
+    'ist_teilbar_spec': '4 2 ltac:(nv)', 'fakultaet_spec': '5 ltac:(nv)', 'teiler_spec': '6 ltac:(nv)', 'primfaktorzerlegung_spec': '12 ltac:(nv)',
     'floor_spec': '(-9) 4 ltac:(nv)', 'floor_integers': '(-8) 4 ltac:(nv) ltac:(exists (-2); lia)',
     'ceil_spec': '(-9) 4 ltac:(nv)', 'ceil_integers': '(-8) 4 ltac:(nv) ltac:(exists (-2); lia)',
     'hoechste_spec': '[1;2] ltac:(nv) ltac:(repeat constructor; unfold in_i64, two63; lia)',
@@ -47,17 +47,18 @@ NV = {
     'text_enthaelt_text_spec': '[97;98] [98] ltac:(nv)', 'text_anzahl_text_spec': '[97;98] [98] ltac:(nv)', 'nicht_ueberlappend_spec': '[97;98] [98] ltac:(nv)',
     'beginnt_mit_text_spec': '[97;98] [97] ltac:(nv)', 'endet_mit_text_spec': '[97;98] [98] ltac:(nv)',
     'loesche_text_spec': '[97;98] 1 ltac:(nv)', 'loesche_text_bereich_spec': '[97;98;99] 2 3 ltac:(nv) ltac:(nv) ltac:(nv)',
-    'text_index_von_text_bounded': '[120;120;120;97] [97;98] ltac:(ov) ltac:(ov) ltac:(nv) ltac:(nv) ltac:(nv) ltac:(nv)',
+    'text_index_von_text_spec': '[99;99;99;97] [97;98] ltac:(nv)',
     'spalte_spec': '[97;44] 44 ltac:(nv)',
-    'spalte_text_bounded': '[97;98;99;98;99] [98;99] ltac:(ov) ltac:(ov) ltac:(nv) ltac:(nv) ltac:(nv) ltac:(nv)',
-    'finde_subtext_bounded': '[97;98;97;97] [97] ltac:(ov) ltac:(ov) ltac:(nv) ltac:(nv) ltac:(nv) ltac:(nv)',
+    'spalte_text_spec': '[97;98;99;98;99] [98;99] ltac:(nv)',
+    'finde_subtext_spec': '[97;98;97;97] [97] ltac:(nv)',
+    'levenshtein_lev': '[107;105] [115;105] ltac:(unfold two63; cbn; lia)',
+    'zahl_als_text_wert': '(-42) ltac:(unfold in_i64, two63; lia)', 'byteliste_roundtrip': '[97;228;8364;128512] ltac:(repeat constructor; unfold skalar; lia)',
     'hamming_spec': '[97] [98] ltac:(nv)', 'hamming_ungleich': '[97] [] ltac:(nv)',
-    'spaltmenge_bounded': '[97;98] [98] ltac:(ov) ltac:(ov) ltac:(nv) ltac:(nv) ltac:(nv) ltac:(nv)',
+    'spaltmenge_spec': '[98] ltac:(reflexivity) [97;98]', 'spaltmenge_text_spec': '[97;98] [98] ltac:(reflexivity)',
 }
-NV['text_index_von_text_bounded'] = NV['text_index_von_text_bounded'].replace('[120;120;120;97]', '[99;99;99;97]')
 
 HDR = '''From Coq Require Import List ZArith Bool Lia Permutation Sorted.
-From DDP Require Import Lib.Base Lib.BaseProofs Lib.ListFns Lib.ListProofs Lib.NumFns Lib.NumProofs Lib.SortFns Lib.SortProofs Lib.TextFns Lib.TextProofs.
+From DDP Require Import Lib.Base Lib.BaseProofs Lib.ListFns Lib.ListProofs Lib.NumFns Lib.NumProofs Lib.SortFns Lib.SortProofs Lib.TextFns Lib.TextProofs Lib.TextSearchProofs Lib.ExtraFns Lib.ExtraProofs.
 Import ListNotations.
 Open Scope Z_scope.
 '''
@@ -78,8 +79,8 @@ def main():
             types[m.group(1)] = " ".join(m.group(2).split())
     out = '''(* C17 — Duden list, text, number and sorting functions meet their specification.
    One refinement theorem per covered function: the Gallina transcription of the DDP body / C primitive (coq/Lib/*Fns.v)
-   equals the Coq list-library expression of its doc comment on the documented domain (_spec).  _bounded = finite
-   domain, the bound is part of the statement (Text_Index_Von_Text, Spalte_Text, Finde_Subtext, Spalten_Spaltmenge_Text).
+   equals the Coq list-library expression of its doc comment on the documented domain (_spec).  Every theorem is a full statement
+   (no bounded ones are left); loops are handled by invariants in coq/Lib/*Proofs.v, fuel exhaustion is excluded there.
    args_unchanged: value parameters cannot change in a functional model (a function cannot modify its argument);
    the harness checks it on the real code by printing every argument after the call.
    The statements below are the full statements of the lemmas of coq/Lib/*Proofs.v (as printed by Check; regenerate
